@@ -446,6 +446,10 @@ set_isub(Bucket* self, PyObject* other)
     else {
         iter = PyObject_GetIter(other);
         if (iter == NULL) {
+            if (!PyErr_ExceptionMatches(PyExc_TypeError)) {
+                /* not "other is not iterable" but a real failure */
+                return NULL;
+            }
             PyErr_Clear();
             Py_INCREF(Py_NotImplemented);
             return Py_NotImplemented;
@@ -522,6 +526,10 @@ set_ixor(Bucket* self, PyObject* other)
     else {
         iter = PyObject_GetIter(other);
         if (iter == NULL) {
+            if (!PyErr_ExceptionMatches(PyExc_TypeError)) {
+                /* not "other is not iterable" but a real failure */
+                return NULL;
+            }
             PyErr_Clear();
             Py_INCREF(Py_NotImplemented);
             return Py_NotImplemented;
@@ -619,6 +627,11 @@ set_iand(Bucket* self, PyObject* other)
 
     iter = PyObject_GetIter(other);
     if (iter == NULL) {
+        Py_DECREF(tmp_list);
+        if (!PyErr_ExceptionMatches(PyExc_TypeError)) {
+            /* not "other is not iterable" but a real failure */
+            return NULL;
+        }
         PyErr_Clear();
         Py_INCREF(Py_NotImplemented);
         return Py_NotImplemented;
